@@ -181,3 +181,57 @@ def get_parens(prop="C01"):
     c.replay_fn = lambda w: rp((w["line"], w["retlevel"], w["retblevel"])) if w.get("line") is not None else {"confirmed": False}
     c.search_fn = search
     return c
+
+
+# ------------------------------------------------------------------ reader._literal_end
+def literal_end(prop="C02"):
+    """where the character literal left open by `buffer` ends on `line`: the prefix of `line` up to the result is read inside the literal (doubled quotes
+    included), the closing quote is not followed by another one, and after it the automaton is back in code state"""
+    c = Contract("ford.reader", "_literal_end", prop)
+    c.param("buffer", TScan())
+    c.param("line", TScan())
+    c.local("quote", TOptChar())
+    B, L = (lambda v: _arr(v, "buffer")), (lambda v: _arr(v, "line"))
+    NB, NL = (lambda v: _n(v, "buffer")), (lambda v: _n(v, "line"))
+    QCH = lambda st: z3.If(st == lex.SQ, lex.QS, z3.If(st == lex.DQ, lex.QD, -1))
+    c.requires("buffer_ends_inside_a_literal", lambda v: lex.RUN(B(v), NB(v)) != lex.CODE)
+    # first loop: `quote` is the state of the character-context automaton after the buffer
+    c.loop(0, invariants=[("quote_is_state", lambda v: v.quote == QCH(lex.RUN(B(v), v.k)))],
+           unfold=lambda v: lex.unfold(B(v), v.k), variant=lambda v: NB(v) - v.k)
+    q0 = lambda v: QCH(lex.RUN(B(v), NB(v)))
+    E = lambda v: V(v._e, v._e.entry)
+
+    # second loop (while): every loop-head index is reached inside the literal; it advances by one character, or by two over a doubled quote
+    c.loop(1, invariants=[
+        ("index_in_range", lambda v: z3.And(0 <= v.index, v.index <= NL(v))),
+        ("quote_is_the_open_one", lambda v: z3.And(v.quote == q0(E(v)), v.quote != -1)),
+    ], variant=lambda v: NL(v) - v.index)
+
+    def post(v0, res, v1):
+        r, n, arr, q = res.t, NL(v0), L(v0), q0(v0)
+        closed = z3.And(1 <= r, r <= n, z3.Select(arr, r - 1) == q, z3.Or(r == n, z3.Select(arr, r) != q))
+        return z3.And(0 <= r, r <= n, z3.Or(r == n, closed))
+    c.ensures("ends_right_after_a_closing_quote_that_is_not_doubled_or_at_the_end_of_the_line", post)
+    c.no_raise = True
+    real = loader.get_obj("ford.reader", "_literal_end")
+
+    def oracle(buf, line):
+        q = {lex.SQ: "'", lex.DQ: '"'}[lex.py_run(buf)]
+        i = 0
+        while i < len(line):
+            if line[i] == q:
+                if line[i + 1:i + 2] == q:
+                    i += 2
+                    continue
+                return i + 1
+            i += 1
+        return len(line)
+
+    def inputs():
+        for b in ("x = 'a", 'y = "b', "z = 'it''s"):
+            for s in lex.strings("a'\"!", 5):
+                yield (b, s)
+    rp, search = _oracle_pair(real, oracle, inputs, "_literal_end")
+    c.replay_fn = lambda w: rp((w["buffer"], w["line"])) if w.get("buffer") is not None and w.get("line") is not None else {"confirmed": False}
+    c.search_fn = search
+    return c
